@@ -309,6 +309,19 @@ fn parse_v_model_directive(
         value = attr_value.clone();
     }
 
+    // the value is assigned to by the generated `onUpdate:*` listener
+    let value = if is_assignment_target(&value) {
+        value
+    } else {
+        HANDLER.with(|handler| {
+            handler.span_err(
+                jsx_attr.span,
+                "The value of `v-model` must be a variable or a member expression.",
+            );
+        });
+        Expr::Ident(quote_ident!("undefined").into())
+    };
+
     Directive::VModel(VModelDirective {
         argument: argument.clone(),
         transformed_argument: if !is_component
@@ -334,6 +347,19 @@ fn parse_v_model_directive(
         modifiers: modifiers.and_then(|modifiers| transform_modifiers(modifiers, is_component)),
         value,
     })
+}
+
+fn is_assignment_target(expr: &Expr) -> bool {
+    match expr {
+        Expr::Ident(ident) => !ident.sym.is_empty(),
+        Expr::Member(..) | Expr::SuperProp(..) => true,
+        Expr::Paren(ParenExpr { expr, .. })
+        | Expr::TsAs(TsAsExpr { expr, .. })
+        | Expr::TsNonNull(TsNonNullExpr { expr, .. })
+        | Expr::TsSatisfies(TsSatisfiesExpr { expr, .. })
+        | Expr::TsTypeAssertion(TsTypeAssertion { expr, .. }) => is_assignment_target(expr),
+        _ => false,
+    }
 }
 
 fn transform_modifiers(modifiers: BTreeSet<Atom>, quote_prop: bool) -> Option<Expr> {
